@@ -245,3 +245,71 @@ fn c11_snapshot_binary_packed() {
     kani::cover!(plain(&v[0]) && plain(&v[1]) && !plain(&w0));
     std::mem::forget(db);
 }
+
+/// ONE binary input (index 3): which variation goes on the wire, and from which value
+fn one_point_case(default_packed: bool, requested: Option<StaticBinaryInputVariation>) {
+    let mut db = StaticDatabase::new(None, ClassZeroConfig::default());
+    let s_var = if default_packed { StaticBinaryInputVariation::Group1Var1 } else { StaticBinaryInputVariation::Group1Var2 };
+    let cfg = PointConfig::<BinaryInput>::new(None, FlagsDetector, s_var, EventBinaryInputVariation::Group2Var1);
+    assert!(db.add::<BinaryInput>(3, cfg));
+    let v = BinaryInput { value: kani::any(), flags: Flags::new(kani::any()), time: None };
+    assert!(db.update(&v, 3, no_event_update()).0);
+    assert!(db.select_by_type::<BinaryInput>(requested, Some(IndexRange::new(0, 65535))).value == 0);
+    // the application updates the point while the response is pending: nothing of it may show
+    let w = BinaryInput { value: kani::any(), flags: Flags::new(kani::any()), time: None };
+    let _ = db.update(&w, 3, no_event_update());
+    let mut out = [0u8; 12];
+    let len = {
+        let mut c = WriteCursor::new(&mut out);
+        assert!(db.write(&mut c).is_ok());
+        c.position()
+    };
+    let packed_wanted = match requested {
+        Some(StaticBinaryInputVariation::Group1Var1) => true,
+        Some(StaticBinaryInputVariation::Group1Var2) => false,
+        None => default_packed,
+    };
+    // IEEE 1815: g1v1 has no flag octet, it may stand only for a point whose flags are exactly ONLINE
+    let plain = v.flags.value & 0x7F == 0x01;
+    if packed_wanted && plain {
+        assert!(len == 8);
+        assert!(out[0] == 1 && out[1] == 1 && out[2] == 0x01 && out[3] == 3 && out[4] == 0 && out[5] == 3 && out[6] == 0);
+        assert!(out[7] == v.value as u8);
+    } else {
+        assert!(len == 8);
+        assert!(out[0] == 1 && out[1] == 2 && out[2] == 0x01 && out[3] == 3 && out[4] == 0 && out[5] == 3 && out[6] == 0);
+        assert!(out[7] == (v.flags.value & 0x7F) | if v.value { 0x80 } else { 0 });
+    }
+    kani::cover!(packed_wanted && !plain);
+    kani::cover!(packed_wanted && plain && w.flags.value != v.flags.value);
+    std::mem::forget(db);
+}
+
+// @harness c11_one_point_requested_packed
+// @props C11,C10
+// @tier thorough
+// @class attempt
+// @timeout 3600
+// @mem 24
+// @units StaticDatabase::{add, update, select_by_type, write, write_typed_range}, StaticVariation<BinaryInput>::{promote, get_write_info}, RangeWriter, WireFlags for BinaryInput
+// @bounds one binary input (index 3, default variation g1v2), any value and flag octet, READ that explicitly asks for the packed variation g1v1, the point updated with arbitrary new value/flags after the selection: the single-fragment response is byte-for-byte what the value AT SELECTION TIME implies - packed g1v1 only if its flags were exactly ONLINE, otherwise g1v2 with the flags - and nothing of the later update shows (value, flags or choice of variation)
+// @outside more than one point (BTreeMap with several entries: attempt-only harnesses), multi-fragment resumption of this path, the other seven point types
+#[kani::proof]
+#[kani::unwind(4)]
+fn c11_one_point_requested_packed() {
+    one_point_case(false, Some(StaticBinaryInputVariation::Group1Var1))
+}
+
+// @harness c11_one_point_default_packed
+// @props C11,C10
+// @tier thorough
+// @class attempt
+// @timeout 3600
+// @mem 24
+// @units as c11_one_point_requested_packed
+// @bounds as above with g1v1 as the point's configured default and a READ that names no variation
+#[kani::proof]
+#[kani::unwind(4)]
+fn c11_one_point_default_packed() {
+    one_point_case(true, None)
+}
